@@ -272,6 +272,14 @@ def check_case(case):
             d = snapshot.first_diff_key(before[sid], snapshot.snapshot(m))
             if d and 'iterations' not in d and '_log' not in d:
                 res.fail('linker/unknown-id/changed-state', f'{detail}: submodel {sid} changed at {d}')
+            # (first_diff_key stops at the first difference, which may be the tolerated iteration counter: the values
+            # and statuses are compared on their own as well)
+            want_A = np.array([1.0 + i for i in range(len(m.span))])
+            if not same_array(np.asarray(m.A), want_A) or any(str(x) != '-' for x in m.status):
+                res.fail('linker/unknown-id/changed-state', f'{detail}: submodel {sid}: A = {np.asarray(m.A).tolist()}, status {list(m.status)} '
+                         f'after the refused call')
+        if not same_array(np.asarray(linker.L), np.array([5.0 + i for i in range(n)])):
+            res.fail('linker/unknown-id/changed-state', f'{detail}: linker L = {linker.L.tolist()} after the refused call')
         return res
     if exc is None and bool(returned) != bool(exp['returned']):
         res.fail(f'linker/{cls}/return-value', f'{detail}: returned {returned!r}, reference {exp["returned"]!r}')
@@ -346,8 +354,12 @@ def _gen_lattice(bound):
                 for max_iter in (1, 3, 4):
                     yield {'subs': specs, 'select': list(sel), 'n': 4, 't': 1,
                            'opts': {'min_iter': 0, 'max_iter': max_iter, 'tol': 0.25, 'failures': 'ignore'}}
-        for sel in (['zz'], ['a', 'zz'], ['zz', 'b'], [0]):
+        for sel in (['zz'], ['a', 'zz'], ['zz', 'b'], [0], ['a', 'b', 'zz'], ['c', 0, 'a']):
             yield {'subs': specs, 'select': sel, 'n': 4, 't': 1, 'opts': {'max_iter': 2, 'tol': 0.25, 'failures': 'ignore'}}
+            # ... refused before anything is copied from another period either
+            for offset in (-1, 1, 2):
+                yield {'subs': specs, 'select': sel, 'n': 4, 't': 1,
+                       'opts': {'max_iter': 2, 'tol': 0.25, 'failures': 'ignore', 'offset': offset}}
         # construction: differing spans, lags/leads maxima, no submodels
         yield {'subs': [], 'n': 3, 't': 0, 'opts': {'max_iter': 1}}
         for spans_ in ([(0, 3), (0, 4)], [(0, 3), (1, 4)], [(0, 3), (0, 3), (0, 2)]):
